@@ -178,7 +178,7 @@ func init() {
 	// syscall.RawConn.Control(f): f runs once on the descriptor unless the connection is already closed, in which case
 	// an error is returned and f does not run; the error is the runtime's own. Results of the ghost history of Control
 	// are recorded like a contract call (ncalls / lastres) so that callers can state what happens to its error.
-	rawCtl := func(c *callCtx) Val {
+	rawCtl := func(hname string, boolRes bool) libFn { return func(c *callCtx) Val {
 		ex := c.ex
 		f := c.args[1]
 		e := ex.freshVal(errorT(), c.st, "ctlerr")
@@ -187,20 +187,27 @@ func init() {
 			ran := ex.name("ctlran", and(c.r(), eq(e.L[0], "0")), sBool)
 			st2 := c.st.clone()
 			fd := ex.freshVal(types.Typ[types.Uintptr], st2, "fd")
-			ex.callFn(c.fr, f.F.Fn, []Val{fd}, f.F.Bind, st2, &ran, c.instr, nil)
+			rv := ex.callFn(c.fr, f.F.Fn, []Val{fd}, f.F.Bind, st2, &ran, c.instr, nil)
+			if boolRes && len(rv.L) == 1 {
+				// Write/Read call f until it reports completion: the state that remains is the one left by the call that returned true
+				saved := ex.curReach
+				ex.curReach = ran
+				ex.assume(rv.L[0])
+				ex.curReach = saved
+			}
 			m := ex.mergeStates([]string{eq(e.L[0], "0")}, []*State{st2, c.st})
 			*c.st = *m
 		} else if ex.pure == 0 {
-			ex.havocAll(c.st, "RawConn.Control with a non-static function")
+			ex.havocAll(c.st, "RawConn."+hname+" with a non-static function")
 		}
 		if ex.pure == 0 {
-			nk := "X|ncalls.RawConn.Control"
+			nk := "X|ncalls.RawConn."+hname
 			ex.registerKey(nk, sInt)
 			prev := ex.heapGet(c.st, nk, sInt)
 			ex.setH(c.st, nk, ex.name("ncalls", ite(c.r(), app("+", prev, "1"), prev), sInt))
-			ex.lastResTypes["RawConn.Control.0"] = errorT()
+			ex.lastResTypes["RawConn."+hname+".0"] = errorT()
 			for j, l := range leaves(errorT()) {
-				rk := fmt.Sprintf("X|lastres.RawConn.Control.0.%d", j)
+				rk := fmt.Sprintf("X|lastres.RawConn.%s.0.%d", hname, j)
 				ex.registerKey(rk, l.Sort)
 				pv := ex.heapGet(c.st, rk, l.Sort)
 				ex.setH(c.st, rk, ex.name("lres", ite(c.r(), e.L[j], pv), l.Sort))
@@ -208,8 +215,10 @@ func init() {
 		}
 		ex.used["library model: syscall.RawConn.Control runs its argument once on success (A-OS)"] = true
 		return e
-	}
-	reg("syscall.RawConn.Control", rawCtl)
+	} }
+	reg("syscall.RawConn.Control", rawCtl("Control", false))
+	reg("syscall.RawConn.Write", rawCtl("Write", true))
+	reg("syscall.RawConn.Read", rawCtl("Read", true))
 	reg("net.Conn.SetDeadline", func(c *callCtx) Val {
 		e := c.ex.freshVal(errorT(), c.st, "sderr")
 		c.ex.assumeExternalError(e)
